@@ -465,6 +465,32 @@ def d4_hierarchy(ctx, idx):
                 r.violation(q, 'exception class does not descend from MITxError (bases: %s): when raised while grading '
                             'it is not recognised as a library error' % ', '.join(ci.bases), ci.loc,
                             expected='subclass of MITxError', found=', '.join(ci.bases))
+        # AbstractGrader.__call__ re-raises library errors as error.__class__(<one message string>): every class of the
+        # hierarchy must accept exactly that call, otherwise the re-raise itself fails with TypeError inside the handler
+        for q, ci in sorted(idx.classes.items()):
+            if not q.startswith('mitxgraders.') or lib.MITX_ERROR not in ci.mro:
+                continue
+            init = None
+            for k in ci.mro:
+                kc = idx.classes.get(k)
+                if kc is not None and '__init__' in kc.methods:
+                    init = kc.methods['__init__']
+                    break
+                if kc is not None and '__new__' in kc.methods:
+                    init = kc.methods['__new__']
+                    break
+            if init is None:
+                continue
+            a = init.node.args
+            pos = a.posonlyargs + a.args
+            required = len(pos) - len(a.defaults) - 1          # minus self
+            kwreq = [x.arg for x, d in zip(a.kwonlyargs, a.kw_defaults) if d is None]
+            accepts_one = (required <= 1 and (len(pos) - 1 >= 1 or a.vararg is not None)) and not kwreq
+            r.check(accepts_one, '%s: constructor' % q, 'accepts a single message argument',
+                    '%s defines %s with %d required arguments%s: the re-raise `error.__class__(message)` in AbstractGrader.__call__ '
+                    'raises TypeError for this class, and that non-library exception escapes to edX' % (
+                        q.split('.')[-1], init.qualname.split('.')[-1], required, (' and required keywords %s' % kwreq) if kwreq else ''),
+                    init.loc, expected='__init__(self, message)')
         sf = idx.cls(DISJOINT[0])
         ce = idx.cls(DISJOINT[1])
         r.check(DISJOINT[1] not in sf.mro and DISJOINT[0] not in ce.mro, 'StudentFacingError / ConfigError',
@@ -837,6 +863,8 @@ def _np_error_table(idx, h):
 
 # ------------------------------------------------------------------------ self-test
 MUTANTS = [
+    Mutant('exception-needs-two-arguments (seed C02c)', 'mitxgraders/helpers/calc/exceptions.py', 'class UnbalancedBrackets(CalcError):\n    \"\"\"\n    Indicate when a student\'s input has unbalanced brackets.\n    \"\"\"\n',
+           'class UnbalancedBrackets(CalcError):\n    \"\"\"\n    Indicate when a student\'s input has unbalanced brackets.\n    \"\"\"\n    def __init__(self, message, highlight=None, *, formula):\n        super(UnbalancedBrackets, self).__init__(message)\n', 'D4'),
     Mutant('generic-template-tainted', BASE, "                    formatted = msg.format(student_input)", "                    formatted = (msg.format('') + student_input + \"'\").format()", 'D1'),
     Mutant('debuglog-raw-concat', BASE, '"Student Response:\\n" + str(student_input)', '"Student Response:\\n" + student_input', 'D2'),
     Mutant('debuglog-raw-join', BASE, '"\\n".join(map(str, student_input))', '"\\n".join(student_input)', 'D2'),
